@@ -50,6 +50,7 @@ func mergeStats(dst, src *bsim.Stats) {
 	dst.Hangs += src.Hangs
 	dst.SlowBuilds += src.SlowBuilds
 	dst.SimOps += src.SimOps
+	dst.SimMs += src.SimMs
 	if src.MaxMs > dst.MaxMs {
 		dst.MaxMs = src.MaxMs
 	}
@@ -342,7 +343,7 @@ func report(o opts, s *prep.Scratch, m *merged, t0 time.Time) int {
 		"simulated_runs":      st.Builds,
 		"runs_per_hour":       int(float64(st.Builds) / wall * 3600),
 		"seeds_per_hour":      int(float64(st.Worlds) / wall * 3600),
-		"simulated_time":      fmt.Sprintf("%d simulated file-system operations over %d runs (the system has no clock or timers; simulated time is counted in operations)", st.SimOps, st.Builds),
+		"simulated_time":      fmt.Sprintf("%d simulated file-system operations over %d runs; %.0f s of simulated clock time passed in them (the tool has no timers of its own: the clock moves on reads and, in latency runs, by 0.5-5 s on a quarter of the operations)", st.SimOps, st.Builds, float64(st.SimMs)/1000),
 		"fault_kinds_fired":   st.FaultsFired,
 		"twin_dimensions":     st.Dims,
 		"map_sites_multi_key": st.SitesMulti,
